@@ -19,7 +19,7 @@ RULES = {
     'R6': 'removing a filter (or clearing a tag filter) leaves the known call sites as the remaining stored filters select them: the remove path clears and then re-applies every stored filter of that target / every stored tag filter (what first-seen call sites get), it does not clear by the arguments of the remove call; closing a target clears its filters with arguments qb_log_filter_ctl accepts',
     'R7': 'names are compared whole: the matcher makes no bounded copy of a filter alternative; the dynamic call-site lookup compares the function name wherever it compares the file name',
 }
-FLOORS = {'R1': 6, 'R2': 4, 'R3': 9, 'R4': 10, 'R5': 7, 'W1': 1, 'R6': 3, 'R7': 2}
+FLOORS = {'R1': 6, 'R2': 4, 'R3': 9, 'R4': 10, 'R5': 7, 'W1': 1, 'R6': 3, 'R7': 3}
 
 
 def run(ctx):
@@ -429,6 +429,19 @@ def r7(ctx):
             n += 1
             if not any(eq_on(at, 'function') for at in gs):
                 bad.append(d.blocks[ev.blk])
+    # a caller-supplied line number cannot abort the process: the slot index is reduced to the lookup array's range
+    lp = None
+    for prm in d.params:
+        if prm.get('ty', '').startswith('unsigned int') and prm['n'] != d.params[0]['n']:
+            lp = prm['n']
+    look = [ev for ev in d.calls('qb_array_index') if 'lookup' in estr(ev.args[0])]
+    if look:
+        ixs = unwrap(look[0].args[1])
+        reduced = ixs.get('k') == 'bin' and ixs['op'] in ('%', '&') and cval(unwrap(ixs['r'])) is not None
+        ctx.check('R7', 'dcs:line-number-reduced-to-table-range', reduced, look[0],
+                  'the lookup slot is the line number reduced to the table size (%s)' % estr(ixs),
+                  'the lookup table is indexed by the raw line number (%s): a log call from a line >= 65536 (any value can come through qb_log_from_external_source) '
+                  'fails the assert on qb_array_index and aborts the process' % estr(ixs))
     if n == 0:
         raise AnalysisBroken('qb_log_dcs_get: no identity comparison on the file name')
     ctx.check('R7', 'dcs:identity-includes-function', not bad, '%s:%d (qb_log_dcs_get)' % (d.file, bad[0].term_ln if bad else d.line),
